@@ -96,7 +96,11 @@ Inductive setter :=
 
 Inductive call :=
 | New (pid : Z)                 (* psutil.Process(pid) *)
-| NewPopen (pid : Z)            (* psutil.Popen(...) whose child has PID pid: _init(pid, _ignore_nsp=True) *)
+| NewPopen (pid : Z)            (* psutil.Popen(...) whose child has PID pid: _init(pid, _ignore_nsp=True);
+                                   a child already gone leaves an object with _gone = True, _ident = (pid, None) *)
+| SetProbe (o : nat)            (* first half of a signal/setter call: _raise_if_pid_reused() *)
+| SetAct (o : nat) (s : setter) (* second half: argument checks and the system call (no identity check) *)
+| EqOther (o : nat)             (* o == x for an x that is not a Process (int, tuple equal to _ident, object()) *)
 | OneshotEnter (o : nat)        (* entering "with o.oneshot():" *)
 | OneshotExit (o : nat)         (* leaving the innermost oneshot block of o *)
 | AsDict (o : nat)              (* o.as_dict(attrs=["ppid"])["ppid"] *)
@@ -163,6 +167,15 @@ Definition new_obj (pid : Z) : outcome pobj :=
                 oshot := O; ocppid := None; ocstat := None |}
        end.
 
+(* Popen.__init__ -> _init(pid, _ignore_nsp=True): a vanished child is not an error *)
+Definition orphan_obj (pid : Z) : pobj :=
+  {| opid := pid; ostart := None; ogone := true; oreused := false; octime := None; ohash := None;
+     oshot := O; ocppid := None; ocstat := None |}.
+Definition new_popen (pid : Z) : outcome pobj :=
+  if pid <? 0 then Exc ValueError
+  else if PID_MAX <=? pid then Exc NoSuchProcess
+  else match kv_stat K pid with None => Val (orphan_obj pid) | Some _ => new_obj pid end.
+
 (* is_running(): result, new object state, PIDs added to _pids_reused *)
 Definition is_running (x : pobj) : pobj * outcome bool * list Z :=
   if ogone x || oreused x then (x, Val false, [])
@@ -224,6 +237,12 @@ Definition setter_body (x : pobj) (s : setter) : pobj * outcome res * list sysc 
     (* if not cpus: cpus = tuple(range(1024)) [LINUX];  cpu_affinity_set(list(set(cpus))) *)
     wrapped_sys x (SAffinity (opid x) (sort_uniq (match cpus with [] => ALL_CPUS | _ => cpus end)))
   end.
+
+(* first half of a guarded call, as a step of its own *)
+Definition do_probe (x : pobj) : pobj * outcome res * list Z :=
+  if opid x <? 0 then (x, OutOfModel, [])
+  else let '(x1, r, add) := raise_if_pid_reused x in
+       (x1, match r with Val _ => Val RNone | Exc e => Exc e | OutOfModel => OutOfModel end, add).
 
 Definition do_setter (x : pobj) (s : setter) : pobj * outcome res * list Z * list sysc :=
   if opid x <? 0 then (x, OutOfModel, [], [])       (* assert not self.pid < 0: no such object exists *)
@@ -352,6 +371,41 @@ Definition proc_iter (m : mstate) : mstate * outcome res :=
      match r with Val l => Val (RObjs l) | Exc e => Exc e | OutOfModel => OutOfModel end)
   end.
 
+(* the same loop without the b70d950 branch (process_iter() as it was before): used only to STATE that the
+   branch is never taken when calls are atomic (Proc/ProofsIter.v) *)
+Fixpoint iter_loop_nostale (ps newp : list Z) (os : list pobj) (pm : list (Z * nat)) (acc : list nat)
+  : list pobj * list (Z * nat) * outcome (list nat) :=
+  match ps with
+  | [] => (os, pm, Val (rev acc))
+  | p :: rest =>
+    match assoc_nat p pm with
+    | Some i => iter_loop_nostale rest newp os pm (i :: acc)
+    | None =>
+      if memz p newp then
+        match new_obj p with
+        | Val y => iter_loop_nostale rest newp (os ++ [y]) (pm ++ [(p, length os)]) (length os :: acc)
+        | Exc NoSuchProcess => iter_loop_nostale rest newp os pm acc
+        | Exc e => (os, pm, Exc e)
+        | OutOfModel => (os, pm, OutOfModel)
+        end
+      else iter_loop_nostale rest newp os pm acc
+    end
+  end.
+
+Definition proc_iter_nostale (m : mstate) : mstate * outcome res :=
+  let a := sort_uniq (kv_pids K) in
+  match a with
+  | [] => (m, Exc IndexError)
+  | _ =>
+    let b := map fst (pmap m) in
+    let newp := filter (fun p => negb (memz p b)) a in
+    let pm1 := filter (fun e => memz (fst e) a) (pmap m) in
+    let pm2 := filter (fun e => negb (memz (fst e) (reused m))) pm1 in
+    let '(os, pm, r) := iter_loop_nostale a newp (objs m) pm2 [] in
+    ({| objs := os; bootc := bootc m; pmap := pm; reused := [] |},
+     match r with Val l => Val (RObjs l) | Exc e => Exc e | OutOfModel => OutOfModel end)
+  end.
+
 (* one public call: new module/object state, outcome, system calls attempted (in order) *)
 Definition mcall (m : mstate) (c : call) : mstate * outcome res * list sysc :=
   match c with
@@ -362,14 +416,30 @@ Definition mcall (m : mstate) (c : call) : mstate * outcome res * list sysc :=
     | OutOfModel => (m, OutOfModel, [])
     end
   | NewPopen pid =>
-    (* a child that is gone before _init() reads it leaves an object without identity: outside the model *)
-    if kexists pid then
-      match new_obj pid with
-      | Val y => (with_objs (objs m ++ [y]) m, Val (RObj (length (objs m))), [])
-      | Exc e => (m, Exc e, [])
-      | OutOfModel => (m, OutOfModel, [])
-      end
-    else (m, OutOfModel, [])
+    match new_popen pid with
+    | Val y => (with_objs (objs m ++ [y]) m, Val (RObj (length (objs m))), [])
+    | Exc e => (m, Exc e, [])
+    | OutOfModel => (m, OutOfModel, [])
+    end
+  | SetProbe o =>
+    match nth_error (objs m) o with
+    | None => (m, OutOfModel, [])
+    | Some x =>
+      let '(x1, r, add) := do_probe x in
+      (with_reusedset (reused m ++ add) (with_objs (upd_nth o x1 (objs m)) m), r, [])
+    end
+  | SetAct o s =>
+    match nth_error (objs m) o with
+    | None => (m, OutOfModel, [])
+    | Some x =>
+      let '(x2, r2, scs) := setter_body x s in
+      (with_objs (upd_nth o x2 (objs m)) m, r2, scs)
+    end
+  | EqOther o =>
+    match nth_error (objs m) o with
+    | None => (m, OutOfModel, [])
+    | Some _ => (m, Val (RBool false), [])      (* __eq__ returns NotImplemented: Python answers False *)
+    end
   | OneshotEnter o =>
     match nth_error (objs m) o with
     | None => (m, OutOfModel, [])
